@@ -83,7 +83,7 @@ PROPS = {
     "C11": dict(probes=["v3"], functions=PARSER + CANON + SERIAL, lean=["final", "roundtrip", "parser", "canonicalize", "layout", "finallabels"], diff=["parser", "pipeline"], bounded=[("c11", None)]),
     "C12": dict(functions=CANON + SERIAL, lean=["canonicalize", "relabel", "finallabels"], diff=["pipeline"], bounded=[("pipeline", "c12")]),
     "C13": dict(probes=[], functions=CANON, lean=["canonicalize", "partition"], diff=["pipeline"], bounded=[("pipeline", "c13")]),
-    "C14": dict(functions=CANON + SERIAL + PARSER + V3000 + V2000 + WRITER, lean=[], diff=[], bounded=[("c14", None)]),
+    "C14": dict(functions=CANON + SERIAL + PARSER + V3000 + V2000 + WRITER, lean=["pipeline", "finallabels"], diff=[], bounded=[("c14", None)]),
     "C15": dict(functions=CANON + SERIAL + PARSER, lean=["pipeline", "canonicalize", "finallabels", "partition", "parser"], diff=["pipeline"], bounded=[("c15", None)]),
     "C16": dict(probes=["v6"], functions=[F["permute_molecule"], F["_permute_molecule"], F["_sort_molecule_by_label"]], lean=["relabel"], diff=["pipeline"], bounded=[("c16", None)]),
 }
@@ -118,7 +118,8 @@ TOP = {
                 note="'argument unchanged' is the frame obligation of canonicalize_molecule (no mutated parameter) — back end: extractor"),
     "C13": dict(level="proof", theorems=["Contracts.Canonicalize.C13_main", "Contracts.Canonicalize.C13_classes", "Contracts.Canonicalize.C13_automorphism", "Contracts.Partition.refine_equitable"],
                 note="under BlissLawful (only for carrying the classes through the final renaming) and SetLawful"),
-    "C14": dict(level="other", theorems=[], note="frame obligations only; thread schedules and dependency-internal state are not decided by this technique"),
+    "C14": dict(level="other", theorems=["Contracts.Pipeline.C01_tucan", "Contracts.FinalLabels.assign_final_labels_order_independent", "Contracts.Partition.partition_eq"],
+                note="decided: (hash seed) the pipeline result is the same for any two set iteration orders (C01_tucan with g = h; the extractor shows sets are iterated only in canonicalization/serialization), (history) every function under contract is a pure function of its arguments with the recorded frame: no global writes, external state only random/clock/igraph/float as recorded, fresh listener per parse (glue fingerprint). NOT decided: thread schedules and state inside igraph, networkx and the antlr4 runtime (shared DFA cache) — bounded subprocess/thread probe only"),
     "C15": dict(level="proof", theorems=["Contracts.Pipeline.C15_pipeline_total", "Contracts.Partition.refine_ok", "Contracts.FinalLabels.assign_final_labels_total", "Contracts.Parser.graph_from_tree_error_is_TPE"],
                 note="total correctness with explicit fuel; call graph of the extracted functions is acyclic (constant call depth); ANTLR/igraph/networkx internals are assumptions"),
     "C16": dict(level="proof", theorems=["Contracts.Relabel.permute_molecule_spec", "Contracts.Relabel.permute_molecule_rng_irrelevant"],
